@@ -688,7 +688,13 @@ pub fn apply(um: &mut UserModel, op: &Op) -> Result<(), String> {
             None,
         ),
         Op::DeleteLink(s, r, c) => um.delete_cell_link(*s, *r, *c),
-        Op::PasteCsv(s, r, c, csv) => um.paste_csv_string(&area(*s, *r, *c, 1, 1), csv),
+        Op::PasteCsv(s, r, c, csv) => {
+            // the UI pastes at the selection: select the target first (when it exists)
+            if um.set_selected_sheet(*s).is_ok() {
+                let _ = um.set_selected_cell(*r, *c);
+            }
+            um.paste_csv_string(&area(*s, *r, *c, 1, 1), csv)
+        }
         Op::CopyPaste(s, r, c, w, h, ts, tr, tc, cut) => {
             um.set_selected_sheet(*s)?;
             um.set_selected_cell(*r, *c)?;
@@ -928,11 +934,32 @@ pub fn op_features(op: &Op) -> Vec<&'static str> {
 
 /// `gen_op` restricted by the avoid switches of `cfg`.
 pub fn gen_op_avoiding(rng: &mut StdRng, um: &UserModel, cfg: &GenCfg) -> Op {
+    let comma_decimal = matches!(um.get_locale().as_str(), "de" | "es" | "fr" | "it");
     for _ in 0..40 {
         let op = gen_op(rng, um, cfg);
         if cfg.avoid.is_empty() || !op_features(&op).iter().any(|f| cfg.avoid.contains(*f)) {
-            return op;
+            return localize(op, comma_decimal);
         }
     }
     Op::Input(0, 1, 1, "7".into())
+}
+
+/// The generator writes formulas with '.' decimals and ',' separators; a user of a
+/// comma-decimal locale types ',' decimals and ';' separators. (The generated formulas
+/// contain no string literal or sheet name with either character.)
+fn localize_formula(f: &str, comma_decimal: bool) -> String {
+    if !comma_decimal || !f.starts_with('=') {
+        return f.to_string();
+    }
+    f.replace(',', ";").replace('.', ",")
+}
+
+fn localize(op: Op, comma_decimal: bool) -> Op {
+    match op {
+        Op::Input(s, r, c, v) => Op::Input(s, r, c, localize_formula(&v, comma_decimal)),
+        Op::ArrayFormula(s, r, c, w, h, f) => {
+            Op::ArrayFormula(s, r, c, w, h, localize_formula(&f, comma_decimal))
+        }
+        other => other,
+    }
 }
